@@ -133,8 +133,11 @@ fn exec_oracle(mode: &str, original: &str, rewritten: &str, driver: &str) -> Str
 /// C09 stated on one output: (a) every mapping with a source points inside the input text; (b) every mapping whose generated
 /// position starts an identifier copied from the input (not an injected name) points at the same identifier in the input.
 /// Returns (first mapping outside the input, first copied identifier mapped elsewhere).
-fn map_position_checks(content: &str, input: &str) -> (Option<String>, Option<String>) {
-    let map = match trailer_map(content) { Some(m) => m, None => return (Some("no map".to_string()), None) };
+fn map_position_checks(content: &str, input: &str) -> (Option<String>, Option<String>, Option<String>) {
+    let map = match trailer_map(content) { Some(m) => m, None => return (Some("no map".to_string()), None, None) };
+    // per generated line: original lines of copied identifiers, and (generated col, original line) of injected tokens
+    let mut copied_lines: std::collections::HashMap<u32, (u32, u32)> = std::collections::HashMap::new();
+    let mut hook_tokens: Vec<(u32, u32, u32)> = Vec::new();
     let in_lines: Vec<Vec<u16>> = input.split('\n').map(|l| l.encode_utf16().collect()).collect();
     let out_lines: Vec<Vec<u16>> = content.split('\n').map(|l| l.encode_utf16().collect()).collect();
     let is_start = |c: u16| (c as u8 as char).is_ascii_alphabetic() && c < 128 || c == b'_' as u16 || c == b'$' as u16;
@@ -162,8 +165,14 @@ fn map_position_checks(content: &str, input: &str) -> (Option<String>, Option<St
             let line = &out_lines[t.get_dst_line() as usize];
             let c = t.get_dst_col() as usize;
             let after_dot = c > 0 && line[c - 1] == b'.' as u16;
-            if injected || after_dot { continue; }
+            if injected || after_dot {
+                if id == "_ddiast" { injected_push(&mut hook_tokens, t.get_dst_line(), t.get_dst_col(), sl); }
+                continue;
+            }
             if inside {
+                let e = copied_lines.entry(t.get_dst_line()).or_insert((sl, sl));
+                e.0 = e.0.min(sl);
+                e.1 = e.1.max(sl);
                 // a private name `#x` is one token starting at `#`
                 let sc2 = if in_lines[sl as usize].get(sc as usize) == Some(&(b'#' as u16)) { sc + 1 } else { sc };
                 let orig = ident_at(&in_lines, sl, sc2);
@@ -173,8 +182,19 @@ fn map_position_checks(content: &str, input: &str) -> (Option<String>, Option<St
             }
         }
     }
-    (outside, mismapped)
+    // (c) a hook call maps into the line span of the statement it belongs to: on its generated line, between the smallest and
+    // the largest original line of the identifiers copied onto that line
+    let mut stray = None;
+    for (gl, gc, sl) in hook_tokens {
+        if let Some((lo, hi)) = copied_lines.get(&gl) {
+            if (sl < *lo || sl > *hi) && stray.is_none() {
+                stray = Some(format!("hook call at generated {}:{} maps to original line {} but the copied identifiers of that line come from lines {}..{}", gl, gc, sl, lo, hi));
+            }
+        }
+    }
+    (outside, mismapped, stray)
 }
+fn injected_push(v: &mut Vec<(u32, u32, u32)>, gl: u32, gc: u32, sl: u32) { v.push((gl, gc, sl)); }
 
 fn count_hooks(code: &str) -> usize {
     code.matches("_ddiast.").count()
@@ -382,12 +402,17 @@ fn main() {
                     !panicked && errored.is_none() && verdict.starts_with("HOOK-ARGS-WRONG")
                 }
                 "map_points_outside_input" => {
-                    let (outside, _) = map_position_checks(&content, &w.source);
+                    let (outside, _, _) = map_position_checks(&content, &w.source);
                     println!("--- map positions outside the input: {:?}", outside);
                     outside.is_some() == v.as_bool().unwrap()
                 }
+                "hook_call_mapped_outside_statement" => {
+                    let (_, _, stray) = map_position_checks(&content, &w.source);
+                    println!("--- hook call mapped outside its statement: {:?}", stray);
+                    stray.is_some() == v.as_bool().unwrap()
+                }
                 "copied_identifier_mismapped" => {
-                    let (_, mis) = map_position_checks(&content, &w.source);
+                    let (_, mis, _) = map_position_checks(&content, &w.source);
                     println!("--- copied identifier mapped elsewhere: {:?}", mis);
                     mis.is_some() == v.as_bool().unwrap()
                 }
